@@ -350,3 +350,161 @@ Example proj_equiv_accepts :
   proj_equiv_b [mkTop 0 [0] []; mkTop 1 [1; 5] []; mkTop 2 [0; 1] []]
                [mkTop 1 [1; 5] []; mkTop 0 [0] []; mkTop 2 [0; 1] []] = true.
 Proof. reflexivity. Qed.
+
+(* ------------------------------------------------------------------------------------------------ *)
+(* Completeness of the bubble checker: with distinct operations and a symmetric dependency relation it
+   accepts EVERY trace-equivalent reordering, so a rejection always names a real exchange of dependent
+   operations (or a different multiset).  Invariant used: the relative order of dependent operations. *)
+Section Complete.
+  Variable op : Type.
+  Variable dep : op -> op -> bool.
+  Variable op_eqb : op -> op -> bool.
+  Hypothesis dep_sym : forall a b, dep a b = dep b a.
+  Hypothesis op_eqb_eq : forall a b, op_eqb a b = true -> a = b.
+  Hypothesis op_eqb_refl : forall a, op_eqb a a = true.
+
+  Definition rel (l : list op) (x y : op) : Prop :=
+    exists i j, i < j /\ nth_error l i = Some x /\ nth_error l j = Some y.
+
+  Definition swap_idx (n i : nat) : nat := if Nat.eqb i n then S n else if Nat.eqb i (S n) then n else i.
+
+  Lemma nth_error_swap (l1 : list op) (a b : op) (l2 : list op) (i : nat) :
+    nth_error (l1 ++ b :: a :: l2) (swap_idx (length l1) i) = nth_error (l1 ++ a :: b :: l2) i.
+  Proof.
+    unfold swap_idx.
+    destruct (Nat.eqb_spec i (length l1)) as [->|Hn].
+    - rewrite !nth_error_app2 by lia.
+      replace (S (length l1) - length l1) with 1 by lia. rewrite Nat.sub_diag. reflexivity.
+    - destruct (Nat.eqb_spec i (S (length l1))) as [->|Hn1].
+      + rewrite !nth_error_app2 by lia.
+        replace (S (length l1) - length l1) with 1 by lia. rewrite Nat.sub_diag. reflexivity.
+      + destruct (Nat.lt_ge_cases i (length l1)) as [Hlt|Hge].
+        * rewrite !nth_error_app1 by lia. reflexivity.
+        * rewrite !nth_error_app2 by lia.
+          destruct (i - length l1) as [|[|k]] eqn:E; try lia. reflexivity.
+  Qed.
+
+  Lemma rel_teq l l' : teq dep l l' -> forall x y, dep x y = true -> rel l x y -> rel l' x y.
+  Proof.
+    induction 1 as [l|l1 a b l2 Hab|l1 l2 l3 H1 IH1 H2 IH2]; intros x y Hd Hr.
+    - exact Hr.
+    - destruct Hr as [i [j [Hij [Hi Hj]]]].
+      exists (swap_idx (length l1) i), (swap_idx (length l1) j).
+      rewrite !nth_error_swap. split; [|split; assumption].
+      unfold swap_idx.
+      destruct (Nat.eqb_spec i (length l1)) as [Ei|Ei]; destruct (Nat.eqb_spec j (length l1)) as [Ej|Ej];
+        destruct (Nat.eqb_spec i (S (length l1))) as [Ei1|Ei1]; destruct (Nat.eqb_spec j (S (length l1))) as [Ej1|Ej1]; try lia.
+      (* i = n, j = n+1: x = a, y = b, but they are independent *)
+      exfalso. subst i j.
+      rewrite nth_error_app2 in Hi by lia. rewrite Nat.sub_diag in Hi. simpl in Hi.
+      rewrite nth_error_app2 in Hj by lia. replace (S (length l1) - length l1) with 1 in Hj by lia. simpl in Hj.
+      injection Hi as <-. injection Hj as <-. unfold Trace.indep in Hab. congruence.
+    - apply IH2; [exact Hd|]. apply IH1; assumption.
+  Qed.
+
+  Lemma NoDup_nth_error_inj (l : list op) i j x : NoDup l -> nth_error l i = Some x -> nth_error l j = Some x -> i = j.
+  Proof.
+    intros Hnd Hi Hj. apply (proj1 (NoDup_nth_error l) Hnd).
+    - apply nth_error_Some. congruence.
+    - congruence.
+  Qed.
+
+  Lemma rel_antisym (l : list op) (x y : op) : NoDup l -> rel l x y -> rel l y x -> False.
+  Proof.
+    intros Hnd [i [j [Hij [Hi Hj]]]] [i' [j' [Hij' [Hi' Hj']]]].
+    assert (i = j') by (eapply NoDup_nth_error_inj; eassumption).
+    assert (j = i') by (eapply NoDup_nth_error_inj; eassumption). lia.
+  Qed.
+
+  Lemma rel_remove (u : list op) (a : op) (v : list op) (x y : op) : rel (u ++ a :: v) x y -> x <> a -> y <> a -> rel (u ++ v) x y.
+  Proof.
+    intros [i [j [Hij [Hi Hj]]]] Hx Hy.
+    assert (Hn : forall k z, nth_error (u ++ a :: v) k = Some z -> z <> a ->
+                   k <> length u /\ nth_error (u ++ v) (if Nat.ltb k (length u) then k else k - 1) = Some z).
+    { intros k z Hk Hz.
+      destruct (Nat.ltb_spec k (length u)) as [Hlt|Hge].
+      - split; [lia|]. rewrite nth_error_app1 in Hk by lia. rewrite nth_error_app1 by lia. exact Hk.
+      - rewrite nth_error_app2 in Hk by lia.
+        destruct (k - length u) as [|m] eqn:E.
+        + simpl in Hk. injection Hk as <-. contradiction.
+        + split; [lia|]. simpl in Hk. rewrite nth_error_app2 by lia.
+          replace (k - 1 - length u) with m by lia. exact Hk. }
+    destruct (Hn i x Hi Hx) as [Hi1 Hi2]. destruct (Hn j y Hj Hy) as [Hj1 Hj2].
+    exists (if Nat.ltb i (length u) then i else i - 1), (if Nat.ltb j (length u) then j else j - 1).
+    split; [|split; assumption].
+    destruct (Nat.ltb_spec i (length u)); destruct (Nat.ltb_spec j (length u)); lia.
+  Qed.
+
+  Lemma extract_complete a : forall l, In a l ->
+    exists u v, extract op_eqb a l = Some (u, v) /\ l = u ++ a :: v /\ ~ In a u.
+  Proof.
+    induction l as [|b r IH]; intros Hin; [inversion Hin|]. simpl.
+    destruct (op_eqb a b) eqn:E.
+    - apply op_eqb_eq in E. subst b. exists [], r. split; [reflexivity|]. split; [reflexivity|]. intros [].
+    - assert (Hr : In a r).
+      { destruct Hin as [->|Hr]; [rewrite op_eqb_refl in E; discriminate|exact Hr]. }
+      destruct (IH Hr) as [u [v [He [Hl Hn]]]].
+      exists (b :: u), v. rewrite He. split; [reflexivity|]. split; [simpl; f_equal; exact Hl|].
+      intros [Hb|Hu]; [subst b; rewrite op_eqb_refl in E; discriminate|contradiction].
+  Qed.
+
+  Lemma In_nth_error_ex (l : list op) x : In x l -> exists i, nth_error l i = Some x.
+  Proof. apply In_nth_error. Qed.
+
+  Theorem bubble_check_complete_order : forall w w',
+    NoDup w -> Permutation w w' ->
+    (forall x y, dep x y = true -> rel w x y -> rel w' x y) ->
+    bubble_check dep op_eqb w w' = true.
+  Proof.
+    induction w as [|a w IH]; intros w' Hnd Hperm Hord; simpl.
+    - apply Permutation_nil in Hperm. subst. reflexivity.
+    - assert (Hin : In a w') by (eapply Permutation_in; [exact Hperm|left; reflexivity]).
+      destruct (extract_complete a w' Hin) as [u [v [He [Hw' Hnu]]]]. rewrite He. subst w'.
+      assert (Hnd' : NoDup (u ++ a :: v)) by (eapply Permutation_NoDup; eassumption).
+      inversion Hnd as [|? ? Hna Hnd0]; subst.
+      apply andb_true_iff. split.
+      + apply forallb_forall. intros b Hb.
+        destruct (dep b a) eqn:Hd; [|reflexivity]. exfalso.
+        assert (Hba : b <> a) by (intro; subst; contradiction).
+        assert (Hbw : In b w).
+        { assert (Hx : In b (a :: w)).
+          { eapply Permutation_in; [apply Permutation_sym; exact Hperm|]. apply in_or_app. left. exact Hb. }
+          destruct Hx as [Hx|Hx]; [congruence|exact Hx]. }
+        destruct (In_nth_error_ex w b Hbw) as [j Hj].
+        assert (R1 : rel (a :: w) a b) by (exists 0, (S j); split; [lia|split; [reflexivity|simpl; exact Hj]]).
+        assert (R2 : rel (u ++ a :: v) a b) by (apply Hord; [rewrite dep_sym; exact Hd|exact R1]).
+        destruct (In_nth_error_ex u b Hb) as [i Hi].
+        assert (Hil : i < length u) by (apply nth_error_Some; congruence).
+        assert (R3 : rel (u ++ a :: v) b a).
+        { exists i, (length u). split; [exact Hil|]. split.
+          - rewrite nth_error_app1 by lia. exact Hi.
+          - rewrite nth_error_app2 by lia. rewrite Nat.sub_diag. reflexivity. }
+        exact (rel_antisym _ _ _ Hnd' R2 R3).
+      + apply IH.
+        * exact Hnd0.
+        * apply Permutation_cons_app_inv with (a := a). exact Hperm.
+        * intros x y Hd [i [j [Hij [Hi Hj]]]].
+          assert (Hx : x <> a) by (intro; subst; apply Hna; eapply nth_error_In; eassumption).
+          assert (Hy : y <> a) by (intro; subst; apply Hna; eapply nth_error_In; eassumption).
+          apply rel_remove with (a := a); [|exact Hx|exact Hy].
+          apply Hord; [exact Hd|]. exists (S i), (S j). split; [lia|split; simpl; assumption].
+  Qed.
+
+  Theorem bubble_check_complete : forall w w', NoDup w -> teq dep w w' -> bubble_check dep op_eqb w w' = true.
+  Proof.
+    intros w w' Hnd H. apply bubble_check_complete_order; [exact Hnd|apply teq_perm with (dep := dep); exact H|].
+    intros x y Hd Hr. eapply rel_teq; eassumption.
+  Qed.
+End Complete.
+
+Theorem trace_equiv_b_complete : forall w w', NoDup (map t_uid w) -> teq top_dep w' w -> trace_equiv_b w w' = true.
+Proof.
+  intros w w' Hnd H. unfold trace_equiv_b.
+  apply (bubble_check_complete top top_dep top_eqb top_dep_sym top_eqb_eq top_eqb_refl).
+  - apply NoDup_map_inv with (f := t_uid). exact Hnd.
+  - apply teq_sym; [|exact H]. intros a b Hi. unfold Trace.indep in *. rewrite top_dep_sym. exact Hi.
+Qed.
+
+(* sound and complete: the validator decides trace equivalence of identified operations *)
+Theorem trace_equiv_b_iff : forall w w', NoDup (map t_uid w) -> (trace_equiv_b w w' = true <-> teq top_dep w' w).
+Proof. intros w w' Hnd. split; [apply trace_equiv_b_sound|apply trace_equiv_b_complete; exact Hnd]. Qed.
